@@ -169,6 +169,17 @@ fn plan(cal: &str, thorough: bool, r: &mut Rng) -> Vec<Plan> {
     }).collect()
 }
 
+/// placement probe for the alias block: the ISO day of (year, ordinal month, day) in another calendar (never logged, never judged)
+fn day_with_same_numbers(cal2: &str, year: i64, month: i64, day: i64) -> Option<i64> {
+    let c = cal2.to_string();
+    std::panic::catch_unwind(move || {
+        let p = temporal_rs::partial::PartialDate::new().with_year(Some(year as i32)).with_month(Some(month as u8)).with_day(Some(day as u8)).with_calendar(Calendar::from_str(&c).ok()?);
+        let d = PlainDate::from_partial(p, Some(temporal_rs::options::ArithmeticOverflow::Constrain)).ok()?;
+        Some(days_from_civil(d.iso_year() as i64, d.iso_month() as i64, d.iso_day() as i64))
+    }).ok().flatten()
+}
+const LUNISOLAR: [&str; 3] = ["chinese", "dangi", "hebrew"];
+
 fn pick_ovf(r: &mut Rng) -> Option<&'static str> { match r.range(0, 2) { 0 => None, 1 => Some("constrain"), _ => Some("reject") } }
 
 fn rebuild(t: &mut Local, r: &mut Rng, cal: &str, n: i64, f: &Value, year: Option<(&str, i64)>, by: &str) {
@@ -229,6 +240,22 @@ fn walk_calendar(cal: &str, cals: &[String], crate_al: &[(String, String)], thor
                         for (c, a) in crate_al {
                             if c == cal && !SYNONYMS.iter().any(|(c2, row)| *c2 == cal && row.contains(&a.as_str())) { rebuild(t, r, cal, day, f, Some((a, ey)), "mc"); }
                         }
+                    }
+                }
+            }
+            // alias block (lunisolar calendars): the day with the same year NUMBER and ordinal month in a sibling calendar is rebuilt from
+            // its ordinal month, then this day again - anything remembered between calls under the year number alone answers for the wrong calendar
+            if dense && LUNISOLAR.contains(&cal) && r.chance(1, 5) {
+                let (y, m) = (f["year"].as_i64().unwrap_or(0), f["month"].as_i64().unwrap_or(1));
+                for c2 in LUNISOLAR.iter().filter(|c| **c != cal) {
+                    if let Some(n2) = day_with_same_numbers(c2, y, m, dd.clamp(1, 29)) {
+                        if n2 < MIN_DAY + 400 || n2 > MAX_DAY - 400 { continue; }
+                        t.reset();
+                        let o2 = t.call("Cal.Day", day_args(c2, n2));
+                        if o2["kind"] == "ok" { let f2 = o2["val"].clone(); rebuild(t, r, c2, n2, &f2, None, "m"); rebuild(t, r, c2, n2, &f2, None, "mc"); }
+                        t.reset();
+                        let o1 = t.call("Cal.Day", day_args(cal, day));
+                        if o1["kind"] == "ok" { let f1 = o1["val"].clone(); rebuild(t, r, cal, day, &f1, None, "m"); }
                     }
                 }
             }
